@@ -283,8 +283,8 @@ class FieldCtx:
     def substitution(self, env):
         """list of (z3 const, z3 value) for every atom and every reduction variable, computed with
         REAL field arithmetic from the values of the base atoms in env"""
+        pairs = list(getattr(env, "extra", ()))
         env = dict(env)
-        pairs = list(env.get("__extra__", []))
         for name, v in self.atoms.items():
             pairs.append((v, z3.IntVal(self.eval_atom(name, env))))
         for v, q, l in self.red_defs:
